@@ -357,4 +357,10 @@ MUTANTS += [
     dict(prop='C20', name='nonstrict-raises-when-very-late', edits=[(RT, "        if self.strict and monotonic() - real_time > self.factor:", "        if (self.strict or monotonic() - real_time > 4 * self.factor) and monotonic() - real_time > self.factor:")]),
     dict(prop='C20', name='factor-ignored-for-initial-time', edits=[(RT, "        real_time = self.real_start + (evt_time - self.env_start) * self.factor", "        real_time = self.real_start + evt_time * self.factor - self.env_start")]),
 ]
+
+MUTANTS += [
+    dict(prop='C13', name='sp-aborts-low-priority-transmission', edits=[(SPF,
+         "                    yield env.process(self.send_packet(packet))\n",
+         "                    tx = env.process(self.send_packet(packet))\n                    top = self.stores[self.priorities[0][0]]\n                    res = yield tx | env.timeout(packet.size * 4.0 / self.rate)\n                    if tx not in res and flow_id != self.priorities[0][0] and top.size() > 0:\n                        tx.interrupt()\n                        self.queue_count[packet.flow_id] -= 1\n                        self.queue_byte_size[packet.flow_id] -= packet.size\n                        self.current_packet = None\n                    elif tx not in res:\n                        yield tx\n")]),
+]
 MUTANTS.sort(key=lambda m: (m['prop'], m['name']))
